@@ -33,6 +33,7 @@ type boolFrame struct {
 	ienv   map[ssa.Value]int64     // integer phis all of whose edges are constants (an axis selector)
 	subst  map[ssa.Value]ssa.Value // helper frame: parameter -> the caller's value
 	ituple map[*ssa.Call][]int64   // integer results of module helpers that returned constants
+	phiSel map[ssa.Value]ssa.Value // the edge each non-boolean phi took on the path walked
 	prev   *ssa.BasicBlock
 }
 
@@ -171,6 +172,10 @@ func (bi *boolInterp) run(fr *boolFrame, b *ssa.BasicBlock, stop map[*ssa.BasicB
 					// an integer selector: all edges constant
 					for i, p := range b.Preds {
 						if p == fr.prev {
+							if fr.phiSel == nil {
+								fr.phiSel = map[ssa.Value]ssa.Value{}
+							}
+							fr.phiSel[x] = x.Edges[i]
 							if k, ok := x.Edges[i].(*ssa.Const); ok && k.Value != nil && k.Value.Kind() == constant.Int {
 								if fr.ienv == nil {
 									fr.ienv = map[ssa.Value]int64{}
